@@ -75,6 +75,20 @@ fn p_cslicebox_lifecycle() {
     kani::cover!(n == 0, "empty");
     kani::cover!(n == 3, "non-empty");
 }
+#[kani::proof]
+#[kani::unwind(6)]
+fn p_cslicebox_zst_elems() {
+    // zero-sized elements WITH a destructor: each must still be destroyed exactly once
+    let n: usize = if kani::any() { 0 } else { 4 };
+    let mut v: Vec<Zd> = Vec::new();
+    let mut i = 0;
+    while i < n { v.push(Zd); i += 1; }
+    let sb = CSliceBox::from(v.into_boxed_slice());
+    assert!(sb.len() == n && drops() == 0);
+    if kani::any() { drop(sb); } else { drop(sb.into_opaque()); }
+    assert!(drops() as usize == n, "C06 every zero-sized element with a destructor is destroyed exactly once");
+    kani::cover!(n == 4, "non-empty");
+}
 //@ prefix=canary kind=canary clause=vacuity canary
 #[kani::proof]
 fn canary_c06_lib() {
